@@ -1258,6 +1258,33 @@ def gen_C13_all(tier, seed):
     out = _gen_C13_base(tier, seed)
     r = random.Random(seed + 13)
     gen_C13_fmt(r, out, budget(tier, 15000, 500000))
+    # well-formed text whose fields are out of range must be rejected (never another date)
+    rj = random.Random(seed * 47 + 13)
+    def bad_texts(y, mo, d, h, mi, sec):
+        base = dict(y=y, mo=mo, d=d, h=h, mi=mi, s=sec)
+        muts = [("mo", 0), ("mo", 13), ("mo", 14), ("mo", 99), ("d", 0), ("d", 32), ("d", mlen(y, mo) + 1), ("h", 25), ("h", 99),
+                ("mi", 60), ("mi", 61), ("mi", 99), ("s", 61), ("s", 99)]
+        if not (mo in (6, 12) and d == mlen(y, mo) and h == 23 and mi == 59):
+            muts.append(("s", 60))
+        for k, v in muts:
+            f = dict(base); f[k] = v
+            if k == "d" and f["mo"] == 2 and v in (30, 31) and is_leap(y):
+                pass      # known finding: kept, matched by the predicate
+            yield f
+    for (y, mo, d, h, mi, sec) in [(2017, 1, 14, 0, 31, 55), (2020, 2, 28, 12, 0, 0), (2021, 2, 28, 23, 59, 59), (1999, 12, 31, 23, 59, 59), (1, 1, 1, 0, 0, 0), (9999, 11, 30, 5, 6, 7)]:
+        for f in bad_texts(y, mo, d, h, mi, sec):
+            for tmpl in ("{y:04}-{mo:02}-{d:02}T{h:02}:{mi:02}:{s:02} UTC", "{y:04}-{mo:02}-{d:02} {h:02}:{mi:02}:{s:02}", "{y:04}-{mo:02}-{d:02}T{h:02}:{mi:02}:{s:02}.5 TAI",
+                         "{y:04}-{mo:02}-{d:02}T{h:02}:{mi:02}:{s:02}+01:00"):
+                out.append("p_reject " + enc(tmpl.format(**f)))
+            out.append("p_reject_fmt " + enc("%Y-%m-%dT%H:%M:%S") + " " + enc("{y:04}-{mo:02}-{d:02}T{h:02}:{mi:02}:{s:02}".format(**f)))
+    for _ in range(budget(tier, 1500, 100000)):
+        y = rj.randint(1, 9999); mo = rj.randint(1, 12); d = rj.randint(1, mlen(y, mo))
+        fs = list(bad_texts(y, mo, d, rj.randint(0, 23), rj.randint(0, 59), rj.randint(0, 59)))
+        f = rj.choice(fs)
+        if rj.random() < 0.7:
+            out.append("p_reject " + enc(rj.choice(["{y:04}-{mo:02}-{d:02}T{h:02}:{mi:02}:{s:02} UTC", "{y:04}-{mo:02}-{d:02}T{h:02}:{mi:02}:{s:02}", "{y:04}-{mo:02}-{d:02} {h:02}:{mi:02}:{s:02} TAI"]).format(**f)))
+        else:
+            out.append("p_reject_fmt " + enc("%Y-%m-%dT%H:%M:%S") + " " + enc("{y:04}-{mo:02}-{d:02}T{h:02}:{mi:02}:{s:02}".format(**f)))
     return out
 
 
